@@ -20,7 +20,7 @@ BASE_CFG = {
     "max_nodes": 7,
     "n_tables": (1, 2),
     "final_order": 0.3,
-    "block_table_prob": 0.1,
+    "block_table_prob": 0.2,
     # polars 1.44 has no Expr.cumsum/cummax/...: ordered windows mostly raise; keep them, but fewer
     "ops": {"ordered_window": 1},
 }
@@ -164,7 +164,7 @@ def run(ctx):
             ev.count("excluded_by_construction", case["excluded_by_construction"])
         return f
 
-    ctx.campaign("main", gen.programs(cfg), oracle, max_examples=ctx.n(500, 64000))
+    ctx.campaign("main", gen.programs(cfg), oracle, max_examples=ctx.n(1500, 64000))
 
     def nan_oracle(case):
         f, info = differential(case, zn_override=())
